@@ -173,7 +173,7 @@ fn arb_case() -> BoxedStrategy<(RefValue, Vec<u8>, Vec<u8>, Vec<u8>, Vec<u8>)> {
 	(super::c09_value(), proptest::collection::vec(any::<u8>(), 0..200), proptest::collection::vec(any::<u8>(), 0..200), gen::arb_choices(), gen::arb_choices()).boxed()
 }
 
-fn texts(tree: &RefValue, ra: &[u8], rb: &[u8], ca: &[u8], cb: &[u8]) -> (String, String, RefValue, RefValue) {
+pub fn texts(tree: &RefValue, ra: &[u8], rb: &[u8], ca: &[u8], cb: &[u8]) -> (String, String, RefValue, RefValue) {
 	let a = rewrite(tree, &mut Chooser::new(ra), None);
 	let b = rewrite(tree, &mut Chooser::new(rb), None);
 	(gen::render_doc(&a, ca, gen::RenderCfg::FREE), gen::render_doc(&b, cb, gen::RenderCfg::FREE), a, b)
